@@ -96,16 +96,29 @@ func loadPkg(repo, rel string, tags []string, imp types.Importer) *pkgInfo {
 	return p
 }
 
-// chainImporter resolves the library's own packages from already checked
-// ones and everything else from source.
+// chainImporter resolves the library's own packages (the root package, field
+// and any further in-module package a tree may introduce) by loading them from
+// the working tree, dependencies first, and everything else from source.
 type chainImporter struct {
-	own map[string]*types.Package
-	src types.Importer
+	own   map[string]*types.Package
+	src   types.Importer
+	repo  string
+	tags  []string
+	order []*pkgInfo // in-module packages in dependency order
 }
 
 func (c *chainImporter) Import(path string) (*types.Package, error) {
 	if p, ok := c.own[path]; ok {
 		return p, nil
+	}
+	if strings.HasPrefix(path, modPath+"/") {
+		rel := strings.TrimPrefix(path, modPath+"/")
+		if st, err := os.Stat(filepath.Join(c.repo, rel)); err == nil && st.IsDir() {
+			p := loadPkg(c.repo, rel, c.tags, c)
+			c.own[path] = p.pkg
+			c.order = append(c.order, p)
+			return p.pkg, nil
+		}
 	}
 	return c.src.Import(path)
 }
@@ -126,27 +139,36 @@ func main() {
 		tags = strings.Split(*tagsF, ",")
 	}
 	os.MkdirAll(*out, 0o755)
-	ci := &chainImporter{own: map[string]*types.Package{}, src: importer.ForCompiler(fset, "source", nil)}
-	field := loadPkg(*repo, "field", tags, ci)
-	ci.own[field.path] = field.pkg
+	ci := &chainImporter{own: map[string]*types.Package{}, src: importer.ForCompiler(fset, "source", nil), repo: *repo, tags: tags}
 	root := loadPkg(*repo, "", tags, ci)
+	if _, ok := ci.own[modPath+"/field"]; !ok {
+		if st, err := os.Stat(filepath.Join(*repo, "field")); err == nil && st.IsDir() {
+			ci.Import(modPath + "/field")
+		}
+	}
+	pkgs := append(append([]*pkgInfo{}, ci.order...), root)
+	for _, p := range ci.order {
+		if p.rel != "field" {
+			extraPkgs = append(extraPkgs, p)
+		}
+	}
 	overlay := map[string]string{}
 	report := map[string]any{}
 	switch *mode {
 	case "sched":
-		mod.build([]*pkgInfo{field, root})
+		mod.build(pkgs)
 		// classification must see every package before any file is rewritten
-		for _, p := range []*pkgInfo{field, root} {
+		for _, p := range pkgs {
 			scanAssembly(p, tags)
 			classifySched(p)
 		}
 		plainMode = *plain
 		uses := []string{}
-		for _, p := range []*pkgInfo{field, root} {
+		for _, p := range pkgs {
 			uses = append(uses, channelUses(p)...)
 		}
 		report["channel_operations"] = uses
-		for _, p := range []*pkgInfo{field, root} {
+		for _, p := range pkgs {
 			instrumentSched(p, *out, overlay, report)
 		}
 		report["plain"] = plainMode
@@ -155,7 +177,7 @@ func main() {
 		addVirtual(*repo, *virt, "vsync", overlay)
 		addVirtual(*repo, *virt, "vsync/atomic", overlay)
 	case "ct":
-		for _, p := range []*pkgInfo{field, root} {
+		for _, p := range pkgs {
 			instrumentCT(p, *out, overlay, report)
 		}
 		addVirtual(*repo, *virt, "vtrace", overlay)
@@ -917,6 +939,11 @@ func rewriteGoStmts(body *ast.BlockStmt) bool {
 
 var plainMode bool
 
+// extraPkgs: in-module packages other than the root package and field. The
+// harness cannot import them (they may be internal), so the root package's
+// generated snapshot functions chain to theirs.
+var extraPkgs []*pkgInfo
+
 // channelUses lists the channel operations of the package's non-test sources:
 // the controlled scheduler models the sync and sync/atomic packages and go
 // statements, not channels (a thread blocked on a channel would stall it).
@@ -1230,6 +1257,11 @@ func instrumentSched(p *pkgInfo, out string, overlay map[string]string, report m
 		}
 	}
 	fmt.Fprintf(&sb, "// Code generated by /verif instr (sched mode). Not part of the repository.\n\npackage %s\n\n", p.pkg.Name())
+	if p.rel == "" {
+		for i, x := range extraPkgs {
+			imports[x.path] = fmt.Sprintf("verifx%d", i)
+		}
+	}
 	if len(imports) > 0 {
 		sb.WriteString("import (\n")
 		var ips []string
@@ -1251,9 +1283,17 @@ func instrumentSched(p *pkgInfo, out string, overlay map[string]string, report m
 		sb.WriteString(")\n\n")
 	}
 	sb.WriteString(decl.String())
-	fmt.Fprintf(&sb, "\n// VerifSnapshot records the cold state of every package-level variable.\nfunc VerifSnapshot() {\n%s}\n", snap.String())
-	fmt.Fprintf(&sb, "\n// VerifRestore puts every package-level variable back into the recorded state.\nfunc VerifRestore() {\n%s}\n", restore.String())
-	fmt.Fprintf(&sb, "\n// VerifGlobals returns pointers to every package-level variable.\nfunc VerifGlobals() map[string]any {\n\treturn map[string]any{\n%s\t}\n}\n", ptrs.String())
+	chainSnap, chainRestore, chainGlobals := "", "", ""
+	if p.rel == "" {
+		for i := range extraPkgs {
+			chainSnap += fmt.Sprintf("\tverifx%d.VerifSnapshot()\n", i)
+			chainRestore += fmt.Sprintf("\tverifx%d.VerifRestore()\n", i)
+			chainGlobals += fmt.Sprintf("\tfor k, v := range verifx%d.VerifGlobals() {\n\t\tm[k] = v\n\t}\n", i)
+		}
+	}
+	fmt.Fprintf(&sb, "\n// VerifSnapshot records the cold state of every package-level variable.\nfunc VerifSnapshot() {\n%s%s}\n", snap.String(), chainSnap)
+	fmt.Fprintf(&sb, "\n// VerifRestore puts every package-level variable back into the recorded state.\nfunc VerifRestore() {\n%s%s}\n", restore.String(), chainRestore)
+	fmt.Fprintf(&sb, "\n// VerifGlobals returns pointers to every package-level variable.\nfunc VerifGlobals() map[string]any {\n\tm := map[string]any{\n%s\t}\n%s\treturn m\n}\n", ptrs.String(), chainGlobals)
 	dst := filepath.Join(out, p.rel, "verif_snapshot.go")
 	os.MkdirAll(filepath.Dir(dst), 0o755)
 	if err := os.WriteFile(dst, []byte(sb.String()), 0o644); err != nil {
